@@ -99,6 +99,8 @@ class Node(object):
         next_individual.exit_date = False
         next_individual.is_blocked = False
         next_individual.original_class = next_individual.customer_class
+        next_individual.previous_class = next_individual.customer_class
+        next_individual.prev_priority_class = next_individual.priority_class
         next_individual.queue_size_at_arrival = self.number_of_individuals
         self.individuals[next_individual.priority_class].append(next_individual)
         self.number_of_individuals += 1
